@@ -3,5 +3,5 @@
 name=$1; shift
 d=$(mktemp -d /tmp/seedrun.XXXX); git -C /repo archive HEAD penman tests docs | tar -x -C $d
 (cd $d && patch -p1 -s < /verif/seeded/$name/patch.diff) || { echo "patch does not apply"; rm -rf $d; exit 2; }
-for p in "$@"; do PENMAN_SRC=$d /verif/check $p 2>&1 | grep "^VIOLATION\|^$p " | cut -c1-230 | sed "s/^/[$name $p] /"; done
+for p in "$@"; do PENMAN_SRC=$d /verif/check $p 2>&1 | grep "^VIOLATION\|^MACHINERY\|^$p " | cut -c1-230 | sed "s/^/[$name $p] /"; done
 rm -rf $d
